@@ -11,7 +11,7 @@ import (
 	"gonum.org/v1/gonum/graph/product"
 	"gonum.org/v1/gonum/graph/simple"
 
-	"verif/harness/internal/core"
+	"gonum.org/v1/gonum/verifharness/internal/core"
 )
 
 // ---- records printed by StructuralGen.tla ----------------------------------
